@@ -164,6 +164,12 @@ func main() {
 				_, err := e.conn.OpenUpstream(ctx, "x")
 				return err
 			}},
+		{name: "SendCall / broker disconnects mid-exchange (must be retried after recovery)", wantOK: true, ctx: 3 * time.Second,
+			policy: killOnce(func(m message.Message) bool { _, ok := m.(*message.UpstreamCall); return ok }),
+			call: func(e *env, ctx context.Context) error {
+				_, err := e.conn.SendCall(ctx, &iscp.UpstreamCall{DestinationNodeID: "d", Name: "n"})
+				return err
+			}},
 		{name: "SendCall / silent broker (no ack)", silent: []string{"call"}, call: func(e *env, ctx context.Context) error {
 			_, err := e.conn.SendCall(ctx, &iscp.UpstreamCall{DestinationNodeID: "d", Name: "n"})
 			return err
